@@ -5,7 +5,7 @@ from . import common
 import impl
 
 PID = "C19"
-LEAN_MODULES = ["BtcHd.Props.C19"]
+LEAN_MODULES = ["BtcHd.Props.C19", "BtcHd.Props.Extra"]
 LEAN_MODULES_THOROUGH = ['BtcHd.Props.TrVarint']
 TRUSTED_BASE = common.CORE_TRUSTED
 ASSUMPTIONS = ["io.BytesIO.read returns at most the requested bytes (short at end of input)",
@@ -69,7 +69,7 @@ def _rand_script(rng, maxn=6):
     return cmds
 
 
-def cases(rng, tier):
+def _cases_core(rng, tier):
     # exhaustive element lengths 0..521
     for ln in range(0, 523):
         d = bytes((ln + i) & 0xff for i in range(ln))
@@ -259,3 +259,9 @@ def literal_ops(lit):
     if lit <= 700:
         yield "scr_raw d" + "ab" * lit if lit else "scr_raw o0"
         yield "scr_ser o172,d" + "cd" * lit if lit else "scr_ser o172"
+
+
+def cases(rng, tier):
+    from . import extra
+    yield from _cases_core(rng, tier)
+    yield from extra.cases_for('script', rng, tier)
